@@ -88,6 +88,11 @@ CHECKS = {
     category='exploration', design='4/C14',
     text="~250 remove_tensor and ~100 derivative cases per quick run: ranks (1,1),(2,2),(2,1),(3,0),(2,0) (quick) and (3,3) (thorough), bra-ket symmetry 0/+1/-1, ADC amplitude vectors (pp and ip/ea shapes), tensors occurring once, twice or squared, carrying target or repeated indices (remove_tensor), 1-2 term expressions, explicit or Einstein targets.",
     note="Derivative cases keep all indices of the differentiated tensor contracted (the property defines the derivative through the full contraction with a variation). For multi-occurrence keys every assignment of key blocks to removal order is tried (the sorted key does not record it). Trusted: the reading of the documented normalisation (DESIGN 4/C14)."),
+ 'C15': dict(
+    technique="runtime monitor: spin-structured reference model (spin orbital = spatial function x spin; V antisymmetrised from a Coulomb array with spin deltas; spin-conserving amplitudes; spin-diagonal f) evaluated on the requested spin block vs. the spin-integrated output; forbidden-block oracle for allowed_spin_blocks",
+    category='exploration', design='4/C15',
+    text="~170 generated expressions x up to 6 target spin strings x expand_eri on/off (about 1200 integrations per quick run), restricted reference checked in a model whose alpha and beta tensors coincide (about 500 per run), expression-level allowed_spin_blocks (every unreported block must be zero), registered intermediates and the MP2 energy / density pipelines.",
+    note="Trusted: TM evaluator with spin-labelled domains. Every term holds >= 1 object of known spin structure; explicit orbital-energy denominators are passed as symbolic denominators (the library's simplify refuses polynoms)."),
 }
 
 NOT_YET = {}
